@@ -27,7 +27,9 @@ pub fn check(t: &Trace<'_>, out: &mut CaseOut) -> bool {
         let ops: Vec<&OpRec> = t.log.ops.iter().filter(|o| o.conn == Some(ci.idx) && o.ev_call > cop.ev_ret).collect();
         // the application must be waiting in poll()/recv() all the time: virtual time may only pass inside them
         let continuous = !w.events[cop.ev_ret..ci.ev_end.min(w.events.len())].iter().enumerate().any(|(i, e)| {
-            matches!(e, Ev::Time { from, to } if to > from) && !t.op_at(cop.ev_ret + i).is_some_and(|o| matches!(t.log.ops[o].kind, "poll" | "recv" | "pollreply"))
+            matches!(e, Ev::Time { from, to } if to > from)
+                && !t.op_at(cop.ev_ret + i).is_some_and(|o| matches!(t.log.ops[o].kind, "poll" | "recv" | "pollreply"))
+                && !matches!(w.events.get(cop.ev_ret + i + 1), Some(Ev::SlowWrite { .. }))
         });
         // a client that busy-waits on the clock distorts virtual time (no broker traffic can be
         // delivered while it spins): that is C16's finding, and this connection is not judged here
@@ -60,9 +62,16 @@ pub fn check(t: &Trace<'_>, out: &mut CaseOut) -> bool {
         let outstanding_at = |x: u64| pings.iter().any(|p| p.t_done <= x && !resps.iter().any(|r| r.0 > p.ev && r.1 <= x));
         // (a) gaps between consecutive client packets
         let end_of_wait = ops.iter().rev().find(|o| matches!(o.kind, "poll" | "recv" | "pollreply")).map(|o| (o.t_ret, o.outcome.clone()));
-        if ka > 0 {
+        if ka > 0 && continuous {
             let mut prev = cop.t_ret;
+            // a transport that is busy for a while delays the completion of a packet the client
+            // started in time: gaps that contain such a pause are not judged
+            let busy: Vec<(u64, u64)> = w.events.iter().filter_map(|e| match e { Ev::SlowWrite { conn, from, to } if *conn == ci.idx => Some((*from, *to)), _ => None }).collect();
             let mut judge = |from: u64, to: u64, what: &str, out: &mut CaseOut| {
+                if busy.iter().any(|(a, b)| *a < to && *b > from) {
+                    out.count("gaps_spanning_a_busy_transport", 1);
+                    return;
+                }
                 if to > from && to - from > ka {
                     let mid = from + ka;
                     let sig = if outstanding_at(mid) { "C10/gap/ping-outstanding" } else { "C10/gap/no-ping-sent" };
@@ -81,6 +90,7 @@ pub fn check(t: &Trace<'_>, out: &mut CaseOut) -> bool {
             }
         }
         // (c)/(d)/(e) dead-peer detection
+        let busy_all: Vec<(u64, u64)> = w.events.iter().filter_map(|e| match e { Ev::SlowWrite { conn, from, to } if *conn == ci.idx => Some((*from, *to)), _ => None }).collect();
         let disc: Vec<&&OpRec> = ops.iter().filter(|o| o.outcome == Outcome::Err(ErrRepr::Disconnected) && o.live_before).collect();
         let external_cause = |o: &OpRec| {
             w.events[o.ev_call..o.ev_ret].iter().any(|e| {
@@ -103,11 +113,15 @@ pub fn check(t: &Trace<'_>, out: &mut CaseOut) -> bool {
             }
             // did the wait go on beyond tp + RTT?
             let waited_until = end_of_wait.as_ref().map(|e| e.0).unwrap_or(0);
-            if late && waited_until >= tp + RTT {
+            if late && waited_until >= tp + RTT && (continuous || disc.iter().any(|o| o.t_ret >= tp && o.t_ret < tp + RTT && !external_cause(o))) {
                 nontrivial = true;
                 let d = disc.iter().find(|o| o.t_ret >= tp && !external_cause(o));
                 match d {
+                    Some(d) if d.t_ret < tp + RTT && busy_all.iter().any(|(a, b)| *b <= tp && *a + RTT <= d.t_ret) => out.violations.push(viol("C10", "C10/timeout-early/transport-busy-while-writing-pingreq", format!("conn {}: PINGREQ flushed at {} after the transport had been busy, Disconnected reported at {} (< {} us later: the bound was counted from before the pause)", ci.idx, tp, d.t_ret, RTT))),
                     Some(d) if d.t_ret < tp + RTT => out.violations.push(viol("C10", "C10/timeout-early", format!("conn {}: PINGREQ flushed at {}, Disconnected reported at {} (< {} us later)", ci.idx, tp, d.t_ret, RTT))),
+                    // (a client stuck in a busy transport cannot report anything until the write returns)
+                    Some(_) | None if !continuous && !disc.iter().any(|o| o.t_ret >= tp && o.t_ret < tp + RTT) => {}
+                    Some(d) if d.t_ret > tp + RTT && busy_all.iter().any(|(a, b)| *a <= tp + RTT && *b >= d.t_ret) => out.count("timeouts_reported_when_the_transport_became_free", 1),
                     Some(d) if d.t_ret > tp + RTT => out.violations.push(viol("C10", "C10/timeout-late", format!("conn {}: PINGREQ flushed at {}, Disconnected reported at {} ({} us after the bound) although the application was waiting all the time", ci.idx, tp, d.t_ret, d.t_ret - tp - RTT))),
                     Some(_) => out.count("timeouts_at_exactly_the_bound", 1),
                     None => {
@@ -133,7 +147,15 @@ pub fn check(t: &Trace<'_>, out: &mut CaseOut) -> bool {
                 d.t_ret >= tp + RTT && !resps.iter().any(|r| r.0 > p.ev && r.1 < tp + RTT)
             });
             if !due {
-                out.violations.push(viol("C10", "C10/spurious-timeout", format!("conn {}: wait ended with Disconnected at {} although no PINGREQ was unanswered for {} us", ci.idx, d.t_ret, RTT)));
+                // early, but not earlier than if the bound were counted from before a pause of the
+                // transport in the middle of the PINGREQ: the client stamps the PINGREQ with the
+                // time at which it began the service pass, not with the time the flush completed
+                let stale_stamp = pings.iter().any(|p| {
+                    let tp = if p.t_flushed != u64::MAX { p.t_flushed } else { p.t_done };
+                    busy_all.iter().any(|(a, b)| *b <= tp && *a + RTT <= d.t_ret && d.t_ret < tp + RTT) && !resps.iter().any(|r| r.0 > p.ev && r.1 <= d.t_ret)
+                });
+                let sig = if stale_stamp { "C10/timeout-early/transport-busy-while-writing-pingreq" } else { "C10/spurious-timeout" };
+                out.violations.push(viol("C10", sig, format!("conn {}: wait ended with Disconnected at {} although no PINGREQ was unanswered for {} us", ci.idx, d.t_ret, RTT)));
             } else {
                 out.count("dead_peer_detected", 1);
             }
